@@ -198,9 +198,12 @@ func (g *c13gen) expr(ty string, depth int) string {
 		return "&T{A: " + g.expr("int", depth+1) + "}"
 	case "slice":
 		if leaf && !force {
-			return g.pick([]string{"Sl", "Sl[1:]", "Sl[:2]", "Arr[:]", "Sl[0:1:2]", "V.S"}, "slleaf")
+			return g.pick([]string{"Sl", "Sl[1:]", "Sl[:2]", "Arr[:]", "Sl[0:1:2]", "V.S", "Sl[1:2:4]", "Arr[0:1:3]", "Sl[:1:3]"}, "slleaf")
 		}
-		switch g.pick([]string{"lit", "keyed", "reslice", "idkeyed"}, "slice") {
+		switch g.pick([]string{"lit", "keyed", "reslice", "idkeyed", "full3", "full3"}, "slice") {
+		case "full3":
+			// a full slice expression: length and capacity both matter
+			return "[]int{" + g.expr("int", depth+1) + ", 2, 3, 4, 5}[1:2:4]"
 		case "keyed":
 			return "[]int{1: " + g.expr("int", depth+1) + "}"
 		case "idkeyed":
@@ -237,7 +240,7 @@ func (g *c13gen) expr(ty string, depth int) string {
 		return "Pair{East: " + g.expr("string", depth+1) + ", West: " + g.expr("string", depth+1) + "}"
 	case "tslice":
 		if leaf && !force {
-			return g.pick([]string{"Ts", "Ts[:1]"}, "tsliceleaf")
+			return g.pick([]string{"Ts", "Ts[:1]", "Ts[0:1:2]"}, "tsliceleaf")
 		}
 		return "[]T{{A: " + g.expr("int", depth+1) + "}, {A: 2, B: \"two\"}}"
 	case "tmap":
